@@ -9,6 +9,7 @@ PROPERTY = "C33"
 LEAN_MODULES = ["KafVerif.Props.C33"]
 OBLIGATIONS = [
     "KafVerif.C33.checkpoint_covered",
+    "KafVerif.C33.checkpoint_covered_growing",
     "KafVerif.C33.coveredB_of_covered",
     "KafVerif.C33.clean_cycle_delivers",
     "KafVerif.C33.offset_zero_delivered",
@@ -26,7 +27,8 @@ TECHNIQUE = ("Lean 4 invariant proof over a model of the polling loop + Go/Lean 
 LEVEL_TEXT = ("proof: checkpoint_covered — for every listing (offset order per partition), both checkpoint stores and every "
               "history of polling cycles with arbitrary listing/claim/load/decode/LFS/sink/commit failures and lease "
               "losses, every record at or below its partition's checkpoint is in the sink (induction over the history on "
-              "a generalised loop invariant); clean_cycle_delivers / offset_zero_delivered — a failure-free cycle leaves "
+              "a generalised loop invariant); checkpoint_covered_growing — the same when new segments complete between "
+              "ticks (each listing extends the previous one per partition); clean_cycle_delivers / offset_zero_delivered — a failure-free cycle leaves "
               "every record of the leased partition, offset 0 included, in the sink. Three witness theorems show the code "
               "before fixes/C33-*.patch violates the property. The model is tied to the current source by running the "
               "same failure timelines through the three real Run loops and the model and diffing lease, records written "
@@ -34,10 +36,11 @@ LEVEL_TEXT = ("proof: checkpoint_covered — for every listing (offset order per
 LEVEL_NOTE = ("Liveness is a one-cycle lemma (no fairness argument about how often failure-free cycles occur). A worker "
               "processes only the partition it holds the lease for (the repo's tests pin this); delivery of other "
               "partitions needs other workers and is not claimed. Schema validation (iceberg, lenient mode drops invalid "
-              "records by design) is off; LFS modes other than resolve are not exercised. etcdStore is represented by an "
-              "in-memory store with the same LoadOffset/CommitOffset contract (-1 when absent); its etcd calls are not run.")
+              "records by design) is off; LFS modes other than resolve are not exercised. For the iceberg variant the real "
+              "etcdStore (claim txn, renew, release, LoadOffset, CommitOffset) runs over an in-memory clientv3 KV/Lease; "
+              "failures are injected in front of it (a CommitOffset that fails after its first Put is not modelled).")
 ASSUMPTIONS = [
-    "ListCompleted returns a partition's segments in offset order (discovery sorts by topic, partition, base offset) and the set of completed segments is fixed during a history",
+    "ListCompleted returns a partition's segments in offset order (discovery sorts by topic, partition, base offset); between ticks the listing only grows at the end of a partition (checkpoint_covered_growing), completed segments never disappear",
     "Decode returns the same records for the same segment on every successful call",
     "one worker; a second worker holding an expired lease concurrently is not modelled (it can only add duplicates or move the checkpoint backwards)",
     "time: every tick is an atomic step; a failing lease renewal is delivered between two ticks (the harness delays it by one virtual second)",
@@ -49,6 +52,8 @@ FAULTS = "nldsc"
 
 def gen_case(rng, variant, ncycles, quiet=False):
     store = "noop" if rng.chance(1, 5) else "mem"
+    if variant == "iceberg" and store == "mem" and rng.chance(1, 2):
+        store = "etcd"      # the real etcdStore (etcd.go) over an in-memory clientv3 KV/Lease
     ntp = rng.choice([1, 1, 2, 3])
     tps = sorted(rng.choice([0, 1, 2, 3, 5]) for _ in range(ntp))
     tps = sorted(set(tps))
@@ -78,7 +83,22 @@ def gen_case(rng, variant, ncycles, quiet=False):
     lines = ["case %s %s" % (variant, store)]
     for tp, offs in segs:
         lines.append("seg %d %s" % (tp, ",".join(map(str, offs)) or "-"))
+    nxt = {}
+    for tp, offs in segs:
+        if offs:
+            nxt[tp] = max(nxt.get(tp, 0), offs[-1] + 1)
+        else:
+            nxt.setdefault(tp, 0)
+    grow = (not quiet) and rng.chance(1, 3)
     for c in range(ncycles):
+        if grow and c > 0 and rng.chance(1, 3):
+            # a new segment of an existing partition completes (listed from this tick on)
+            tp = rng.choice(sorted(nxt))
+            o = nxt[tp] + (0 if rng.chance(4, 5) else rng.range(1, 3))
+            offs = list(range(o, o + rng.range(1, 3)))
+            nxt[tp] = offs[-1] + 1
+            segs.append((tp, offs))
+            lines.append("seg %d %s" % (tp, ",".join(map(str, offs))))
         listfail = (not quiet) and rng.chance(1, 12)
         claim = "-"
         if not quiet and rng.chance(1, 5):
@@ -89,7 +109,7 @@ def gen_case(rng, variant, ncycles, quiet=False):
                 fs.append("n")
             elif variant == "iceberg" and rng.chance(1, 3):
                 bad = [o for o in offs if rng.chance(1, 3)] or offs[:1]
-                fs.append("f" + "+".join(map(str, bad)))
+                fs.append("f" + "+".join(map(str, bad)) if bad else "n")
             else:
                 fs.append(rng.choice(list("ldsc")))
         lines.append("cycle %d %s %s" % (1 if listfail else 0, claim, ",".join(fs)))
@@ -104,19 +124,25 @@ def parse_line(l):
 
 def monitor(case_lines, out_lines):
     """The property, evaluated on the implementation's trace.  Returns (fingerprint, what) or None."""
-    segs = [(int(l.split()[1]), [int(x) for x in l.split()[2].split(",")] if l.split()[2] != "-" else [])
-            for l in case_lines if l.startswith("seg ")]
-    cycles = [l for l in case_lines if l.startswith("cycle ")]
+    script = iter([l for l in case_lines if l != "lost"])      # aligns 1:1 with the non-`lost` output lines
+    segs = []
     sink = set()
-    ci = 0
     for o in out_lines:
         if o == "panic":
             return "processor-panic", "Processor.Run panicked"
-        if not o.startswith("cycle "):
+        if o == "lost":
+            continue
+        src = next(script, None)
+        if src is None:
+            break
+        if src.startswith("seg "):
+            f = src.split()
+            segs.append((int(f[1]), [int(x) for x in f[2].split(",")] if f[2] != "-" else []))
+            continue
+        if not o.startswith("cycle ") or not src.startswith("cycle "):
             continue
         kv = parse_line(o)
-        oracle = cycles[ci].split() if ci < len(cycles) else None
-        ci += 1
+        oracle = src.split()
         if kv["wrote"] != "-":
             for w in kv["wrote"].split(","):
                 tp, off = w.split(":")
@@ -137,7 +163,7 @@ def monitor(case_lines, out_lines):
                 if off <= int(v) and (tp, off) not in sink:
                     return ("checkpoint-past-unwritten-record",
                             "checkpoint of partition %d is %s but offset %d was never written" % (tp, v, off))
-        if oracle and oracle[1] == "0" and all(f == "n" for f in oracle[3].split(",")) and kv["lease"] != "-":
+        if oracle[1] == "0" and all(f == "n" for f in oracle[3].split(",")) and kv["lease"] != "-":
             tp = int(kv["lease"])
             for t, offs in segs:
                 for off in offs:
@@ -225,8 +251,8 @@ def compare(ck, name, cases, results, rerun=None):
             small = c
             seen = fp in [v["fingerprint"] for v in ck.violations] or fp in [h["fingerprint"] for h in ck.known_hits]
             if rerun is not None and not seen:
-                head = [l for l in c if not l.startswith(("cycle", "lost"))]
-                tail = [l for l in c if l.startswith(("cycle", "lost"))]
+                first = next(i for i, l in enumerate(c) if l.startswith("cycle"))
+                head, tail = c[:first], c[first:]
                 small_tail = lib.ddmin(tail, lambda cand: _fails(rerun, head + cand, fp))
                 small = head + small_tail
             ck.violation(fp, "%s processor: %s" % (name, what),
@@ -307,15 +333,19 @@ def run(ck):
     nsk = 40 if quick else 200
     sk_cycles = 3 if quick else 6
     def trim(c):
-        head = [l for l in c if not l.startswith(("cycle", "lost"))]
-        tail = [l for l in c if l.startswith("cycle") or (l == "lost" and not quick)]
+        first = next(i for i, l in enumerate(c) if l.startswith("cycle"))
+        head, tail = c[:first], c[first:]
         k, keep = 0, []
         for l in tail:
+            if l == "lost" and quick:
+                continue
             if l.startswith("cycle"):
                 k += 1
                 if k > sk_cycles:
                     break
             keep.append(l)
+        while keep and not keep[-1].startswith("cycle"):
+            keep.pop()
         return head + keep
     sk_cases = [trim(c) for c in (corpus("skeleton")[:4] if quick else corpus("skeleton"))]
     rs = ck.rng.fork()
